@@ -29,6 +29,7 @@ package interfaces
 //@   pure
 //@   ensures result0 == CommitteeOf(self, ctx, blockHeight, prevBlockReferenceTime)
 //@   ensures SumMW(result0, len(result0)) < 2^64
+//@   ensures [names-the-verdict] (result1 == nil) == CommitteeKnown(self, ctx, blockHeight, prevBlockReferenceTime)
 
 // A-SPI: a node's own member id is fixed (the same answer at every call)
 //@ iface interfaces.Membership.MyMemberId
